@@ -2,6 +2,7 @@
 
 use crate::common::*;
 use crate::gen::*;
+use nalgebra::point;
 use crate::geo::{self, Hit, Occ, Pose};
 use bemodel::climatedata::{CLIMATEMETADATA, JULYRADDATA};
 use bemodel::*;
@@ -23,7 +24,7 @@ fn local_shade(name: &str, wallg: &WallGeom, kind: usize, origin_local: [f32; 3]
         0 => wallg.tilt,
         _ => wallg.tilt + 90.0,
     };
-    Shade { id: uid(name), name: name.into(), geometry: geom(tilt, wallg.azimuth, Some([p[0] as f32, p[1] as f32, p[2] as f32]), rect(w, h)) }
+    Shade { id: uid(name), name: name.into(), geometry: geom(tilt, wallg.azimuth, Some([p[0] as f32, p[1] as f32, p[2] as f32]), rect(w, h)), ..Default::default() }
 }
 
 fn obstacle(kind: &str, wallg: &WallGeom) -> Option<Shade> {
@@ -48,14 +49,14 @@ fn obstacle(kind: &str, wallg: &WallGeom) -> Option<Shade> {
                 return Some(local_shade("ob", wallg, 0, [0.0, 0.0, 0.7], 1.0, 3.0));
             }
             // a vertical rectangle containing the outward horizontal direction: azimuth of its normal = az + 90
-            Some(Shade { id: uid("ob"), name: "ob".into(), geometry: geom(90.0, wallg.azimuth + 90.0, Some([p[0] as f32, p[1] as f32, p[2] as f32]), vec![point![0.0, 0.0], point![-1.5, 0.0], point![-1.5, 2.5], point![0.0, 2.5]]) })
+            Some(Shade { id: uid("ob"), name: "ob".into(), geometry: geom(90.0, wallg.azimuth + 90.0, Some([p[0] as f32, p[1] as f32, p[2] as f32]), vec![point![0.0, 0.0], point![-1.5, 0.0], point![-1.5, 2.5], point![0.0, 2.5]]), ..Default::default() })
         }
         _ => None,
     }
 }
 
 fn scene(zone_name: &str, az: f32, tilt: f32, setback: f32, obst: &str, fillers: usize, positions: usize) -> Model {
-    let mut m = Model { meta: meta(zone(zone_name)), ..Default::default() };
+    let mut m = model_with_meta(meta(zone(zone_name)));
     let wc = std_cons(&mut m);
     let winc = std_wincons(&mut m);
     m.spaces.push(space("S1", SpaceType::CONDITIONED, true, 3.0));
@@ -68,7 +69,7 @@ fn scene(zone_name: &str, az: f32, tilt: f32, setback: f32, obst: &str, fillers:
     for i in 0..fillers {
         // far away, behind and below: can never hide the window
         let p = Pose::of(&wg).unwrap().to_world([(i % 10) as f64 * 3.0 - 15.0, -30.0 - (i / 10) as f64 * 3.0, -200.0]);
-        m.shades.push(Shade { id: uid(&format!("fill{i}")), name: format!("fill{i}"), geometry: geom(90.0, (i * 37) as f32, Some([p[0] as f32, p[1] as f32, p[2] as f32]), rect(1.0, 1.0)) });
+        m.shades.push(Shade { id: uid(&format!("fill{i}")), name: format!("fill{i}"), geometry: geom(90.0, (i * 37) as f32, Some([p[0] as f32, p[1] as f32, p[2] as f32]), rect(1.0, 1.0)), ..Default::default() });
     }
     match positions {
         1 => v.geometry.position = None,
@@ -112,10 +113,8 @@ pub fn reference_f(m: &Model, win: &Window) -> Option<RefF> {
             (1.0, 1.0)
         } else {
             let n = {
-                // outward normal: polygon orientation decides the sign
-                let pn = HasSurface::normal(&wall.geometry.polygon);
-                let nn = wall_pose.unwrap().rot([0.0, 0.0, pn.z as f64]);
-                nn
+                // outward normal: the listing sense of the outline decides the sign (own shoelace sum)
+                wall_pose.unwrap().rot([0.0, 0.0, geo::outline_sense(&wall.geometry)])
             };
             let c = geo::dot(n, sun);
             if c < 0.01 - 0.02 {
@@ -181,10 +180,11 @@ fn check_sample_points(ctx: &Ctx, m: &Model, win: &Window, case: &dyn Fn() -> Va
     }
     let (mut cx, mut cy) = (0.0, 0.0);
     for p in &pts {
-        let l = pose.to_local([p.x as f64, p.y as f64, p.z as f64]);
+        // the window is placed in the frame of the wall outline (origin at its first vertex, x along its first edge)
+        let l = geo::local_to_poly_frame(&wall.geometry, pose.to_local([p.x as f64, p.y as f64, p.z as f64]));
         let (x0, y0) = (wp.x as f64, wp.y as f64);
         if l[0] < x0 - 1e-3 || l[0] > x0 + win.geometry.width as f64 + 1e-3 || l[1] < y0 - 1e-3 || l[1] > y0 + win.geometry.height as f64 + 1e-3 || (l[2] + win.geometry.setback as f64).abs() > 2e-3 {
-            ctx.violation("sample-points:outside-window-plane", &format!("sample point at wall-local {:?} is not on the window rectangle in the set-back plane (z=-{})", l, win.geometry.setback), case());
+            ctx.violation("sample-points:outside-window-plane", &format!("sample point at {:?} (frame of the wall outline) is not on the window rectangle in the set-back plane (z=-{})", l, win.geometry.setback), case());
             return;
         }
         cx += l[0];
@@ -296,19 +296,25 @@ pub fn run(ctx: &Ctx) -> i32 {
     // computed for one window must not depend on which window was treated before it)
     let pz = ctx.tier.pick(3, zones.len());
     let paz = [0.0f32, 90.0, 180.0, -45.0];
-    let g2 = Grid::new(&[("zone", pz), ("azimuth A", paz.len()), ("tilt A", 3), ("azimuth B{same,+90}", 2), ("tilt B", 3), ("order", 2)]);
+    let g2 = Grid::new(&[("zone", pz), ("azimuth A", paz.len()), ("tilt A", 3), ("azimuth B{same,+90}", 2), ("tilt B", 3), ("order", 2), ("B position{yes,window without,wall without}", 3)]);
     let accs2 = par_fold(g2.size(), |i, acc: &mut Acc| {
         let t = g2.unrank(i);
         let mut m = scene(zones[t[0]], paz[t[1]], TILTS[t[2]], 0.0, "overhang", 0, 0);
         let az_b = paz[t[1]] + [0.0f32, 90.0][t[3]];
-        let wg = geom(TILTS[t[4]], az_b, Some([3.0, -2.0, 12.0]), rect(4.0, 3.0));
+        // (for the turned wall the outline lies away from the local origin and is listed from its third corner)
+        let wg = if t[3] == 1 { geom(TILTS[t[4]], az_b, Some([-7.0, -12.0, 12.0]), vec![point![14.0, 13.0], point![10.0, 13.0], point![10.0, 10.0], point![14.0, 10.0]]) } else { geom(TILTS[t[4]], az_b, Some([3.0, -2.0, 12.0]), rect(4.0, 3.0)) };
         m.walls.push(wall("W1", BoundaryType::EXTERIOR, uid("wc"), uid("S1"), None, wg));
         m.windows.push(window("V1", uid("winc"), uid("W1"), Some([1.0, 0.8]), 1.5, 1.2, 0.0));
+        match t[6] {
+            1 => m.windows.last_mut().unwrap().geometry.position = None,
+            2 => m.walls.last_mut().unwrap().geometry.position = None,
+            _ => {}
+        }
         if t[5] == 1 {
             m.windows.reverse();
             m.walls.reverse();
         }
-        let case = || json!({"part": "two-windows", "zone": zones[t[0]], "A(az,tilt)": [paz[t[1]], TILTS[t[2]]], "B(az,tilt)": [az_b, TILTS[t[4]]], "B listed first": t[5] == 1});
+        let case = || json!({"part": "two-windows", "zone": zones[t[0]], "A(az,tilt)": [paz[t[1]], TILTS[t[2]]], "B(az,tilt)": [az_b, TILTS[t[4]]], "B listed first": t[5] == 1, "B position(0 yes,1 window without,2 wall without)": t[6]});
         check_scene(ctx, &m, &case, acc, None);
     });
     // real models: reference comparison + one extra obstacle in front of the first window's wall
@@ -350,7 +356,7 @@ pub fn run(ctx: &Ctx) -> i32 {
     ctx.sample(json!({"part": "scene", "zone": zones[t[0]], "azimuth": AZS[t[1]], "tilt": TILTS[t[2]], "setback_idx": t[3], "obstacle": OBST[t[4]], "fillers": FILLERS[t[5]], "positions": t[6]}));
     ctx.finish(
         "model_checking",
-        &format!("full product zones({}) x window-wall azimuth(8) x tilt{{90,45,0}} x setback{{0,0.2}} x obstacle{{none, facing wall at 1/5/20 m, overhang, big overhang, side fin, half cover, behind, below}} x far-away filler occluders{{0,29,30,31,60}} (crossing the BVH leaf size) x positions{{all, window without, wall without}}; oracle: brute-force f64 ray/polygon casting from the code's own sample points over the statement's occluder set (reveals recomputed), bands: 1 mm from an outline, |n.d|<0.02, sun within 0.02 of the back-face threshold; F in [lo-0.005, hi+0.005], in [0,1], >= 0.97 when nothing can be hit, diffuse share when hidden at every hour, sample points on the window rectangle in the set-back plane; exact monotonicity when each alphabet obstacle (one as a wall) is added; two-window models over all ordered pairs of wall poses (azimuth(4) x tilt(3) x second azimuth{{same,+90}} x tilt(3) x list order); shipped models with and without extra obstacles; non-trivial = some ray can be blocked", zones.len()),
+        &format!("full product zones({}) x window-wall azimuth(8) x tilt{{90,45,0}} x setback{{0,0.2}} x obstacle{{none, facing wall at 1/5/20 m, overhang, big overhang, side fin, half cover, behind, below}} x far-away filler occluders{{0,29,30,31,60}} (crossing the BVH leaf size) x positions{{all, window without, wall without}}; oracle: brute-force f64 ray/polygon casting from the code's own sample points over the statement's occluder set (reveals recomputed), bands: 1 mm from an outline, |n.d|<0.02, sun within 0.02 of the back-face threshold; F in [lo-0.005, hi+0.005], in [0,1], >= 0.97 when nothing can be hit, diffuse share when hidden at every hour, sample points on the window rectangle in the set-back plane; exact monotonicity when each alphabet obstacle (one as a wall) is added; two-window models over all ordered pairs of wall poses (azimuth(4) x tilt(3) x second azimuth{{same,+90}} x tilt(3) x list order x second window with / without position); shipped models with and without extra obstacles; non-trivial = some ray can be blocked", zones.len()),
         true,
         json!({"scenes": n}),
     )
